@@ -103,7 +103,7 @@ Proof.
   cbn [map fold_right]. destruct H as [H|H]; [subst; lia|]. specialize (IH H). lia.
 Qed.
 
-(* since fix <commitmain> of /repo: for programs in which main is not called.  When main is called the output has one
+(* since fix f929eb7 of /repo: for programs in which main is not called.  When main is called the output has one
    more definition, the entry point  def main<n>(params) { main(params, mu~x. exit x) }  of 4 + #params nodes, which the
    bound does not count when the parameters do not occur in the source (k = 0); for such programs the size of the
    output is checked per case by ./check C19 only *)
